@@ -998,6 +998,8 @@ class FragText(str):
         if self._hays is None:
             node = self._node
             fn = owner_fn(node) if isinstance(node, dict) else None
+            # a detached copy (inlined / folded tree) has no known scope: only explicit `$META`s vary there
+            self._implicit = fn is not None
             hays = []
             b0 = _bound_names(node, fn)
             if fn is not None and fn.get("body") is not None and node is not fn["body"] and node is not fn:
@@ -1118,7 +1120,8 @@ class FragText(str):
                     and not (post[:1] == ":" and pre in ("{", ","))
                 )
                 is_var = (
-                    local_pos
+                    getattr(self, "_implicit", True)
+                    and local_pos
                     and (w[0].islower() or w[0] == "_")
                     and w not in _KW
                     and w not in hay.bound
@@ -1770,7 +1773,7 @@ def guarded_writes(body, prefix):
     return out
 
 
-def inline_helpers(fn, depth=2, max_lines=60):
+def inline_helpers(fn, depth=2, max_lines=60, keep=()):
     """copy of `fn`'s body in which every call to a small helper defined in the same file is replaced by
     that helper's body (a block), its parameters replaced by the call's arguments.  Rules that walk the
     syntax tree (conditions, calls, loops) then see the same facts whether or not a maintainer extracted
@@ -1790,7 +1793,7 @@ def inline_helpers(fn, depth=2, max_lines=60):
             segs = path_segs(out["func"])
             if segs and (len(segs) == 1 or (len(segs) == 2 and segs[0] == "Self")):
                 name, args = segs[-1], out["args"]
-        if name is None:
+        if name is None or name in keep:
             return out
         callee = _same_file_fn(cur, name)
         if callee is None or callee is cur or not callee.get("body") or (callee["body"].get("le", 0) - callee["body"].get("ln", 0)) > max_lines:
